@@ -1,6 +1,7 @@
 import DendroModel.Model.C07
 import DendroModel.Theory.C07Path
 import DendroModel.Theory.C17Frac
+import DendroModel.Theory.Reseed
 import Mathlib.Tactic
 /-! C07 — theorems about the executable model `Model/C07.lean` (the definitions `drv_c07` runs). -/
 
@@ -409,5 +410,243 @@ theorem outgroup_first (flag : Option Bool) (og : Nat) (t : T) (r : T × Option 
         exact ⟨o', rest', h1, h2.trans hid⟩
       · simp only [hd]
         exact ⟨o, _, rfl, hid⟩
+
+end DendroModel.C07
+
+namespace DendroModel.C07.Aux
+open DendroModel DendroModel.C07
+
+mutual
+theorem inv_root (tgt : Nat) : ∀ (t : T) (l : Option Frac) (ups : List T) (r : T),
+    inv tgt t l ups = some r → r.id = tgt ∧ r.len = l
+  | .node i x l0 s cs, l, ups, r, h => by
+      rw [inv] at h
+      split at h
+      · rename_i hi
+        cases h
+        exact ⟨by simpa [T.id] using hi, rfl⟩
+      · exact invL_root tgt cs [] ups i x s l r h
+theorem invL_root (tgt : Nat) : ∀ (post pre ups : List T) (i : Nat) (x : Option Nat) (s : Option String)
+    (l : Option Frac) (r : T), invL tgt i x s l pre post ups = some r → r.id = tgt ∧ r.len = l
+  | [], _, _, _, _, _, _, _, h => by simp [invL] at h
+  | c :: post, pre, ups, i, x, s, l, r, h => by
+      rw [invL] at h
+      split at h
+      · rename_i r' hr'
+        cases h
+        exact inv_root tgt c l _ r hr'
+      · exact invL_root tgt post (pre ++ [c]) ups i x s l r h
+end
+
+mutual
+theorem inv_some (tgt : Nat) : ∀ (t : T) (l : Option Frac) (ups : List T),
+    contains tgt t = true → ∃ r, inv tgt t l ups = some r
+  | .node i x l0 s cs, l, ups, h => by
+      rw [inv]
+      simp only [contains, Bool.or_eq_true] at h
+      split
+      · exact ⟨_, rfl⟩
+      · rename_i hi
+        rcases h with h | h
+        · exact absurd h hi
+        · exact invL_some tgt cs [] ups i x s l h
+theorem invL_some (tgt : Nat) : ∀ (post pre ups : List T) (i : Nat) (x : Option Nat) (s : Option String)
+    (l : Option Frac), containsL tgt post = true → ∃ r, invL tgt i x s l pre post ups = some r
+  | [], _, _, _, _, _, _, h => by simp [containsL] at h
+  | c :: post, pre, ups, i, x, s, l, h => by
+      rw [invL]
+      simp only [containsL, Bool.or_eq_true] at h
+      split
+      · exact ⟨_, rfl⟩
+      · rename_i hnone
+        rcases h with h | h
+        · obtain ⟨r, hr⟩ := inv_some tgt c l [.node i x c.len s (pre ++ post ++ ups)] h
+          rw [hr] at hnone; cases hnone
+        · exact invL_some tgt post (pre ++ [c]) ups i x s l h
+end
+end DendroModel.C07.Aux
+
+namespace DendroModel.C07
+open DendroModel DendroModel.C07.Aux
+
+/-- after the inversions the requested node IS the root and carries the old seed's own edge length (the root edge length
+    travels with the root), for every node of the tree -/
+theorem reseed_root_is_target (tgt : Nat) (t : T) (h : contains tgt t = true) :
+    (invertTo tgt t).id = tgt ∧ (invertTo tgt t).len = t.len := by
+  obtain ⟨r, hr⟩ := inv_some tgt t t.len [] h
+  simp only [invertTo, hr, Option.getD_some]
+  exact inv_root tgt t t.len [] r hr
+
+/-! ## the hypotheses are satisfiable, and the theorems speak about the running definitions -/
+
+/-- `((A:1,B:1)X:1,C:2)` with ids 0..4 -/
+def exTree : T :=
+  .node 0 none none none
+    [.node 1 none (some ⟨1, 1⟩) none [.node 2 (some 0) (some ⟨1, 1⟩) none [], .node 3 (some 1) (some ⟨1, 1⟩) none []],
+     .node 4 (some 2) (some ⟨2, 1⟩) none []]
+
+example : (∀ n ∈ exTree.nodes, n.id = 1 → n.cs ≠ []) ∧ 2 ≤ exTree.cs.length ∧ (leafIds exTree).Nodup := by
+  refine ⟨?_, by decide, by decide⟩
+  intro n hn
+  simp [exTree, T.nodes, T.nodesL] at hn
+  rcases hn with rfl | rfl | rfl | rfl | rfl <;> simp [T.id, T.cs]
+
+example : ((reseedAt (some false) false false 1 exTree).1).id = 1 := by decide
+example : contains 1 exTree = true := by decide
+example : ∃ r, toOutgroup (some false) false 4 exTree = some r := ⟨_, rfl⟩
+example : midWalk [(2, ⟨1, 1⟩, 1), (1, ⟨1, 1⟩, 0)] ⟨2, 1⟩ = .onNode 0 := by decide
+example : midWalk [(4, ⟨2, 1⟩, 0)] ⟨3, 2⟩ = .onEdge 4 ⟨3, 2⟩ := by decide
+
+end DendroModel.C07
+
+namespace DendroModel.C07.Aux
+open DendroModel DendroModel.C07
+
+theorem insStable_perm (before : T → T → Bool) (x : T) : ∀ l : List T, (insStable before x l).Perm (x :: l)
+  | [] => by simp [insStable]
+  | y :: r => by
+    simp only [insStable]
+    split
+    · exact ((insStable_perm before x r).cons y).trans (List.Perm.swap x y r)
+    · exact List.Perm.refl _
+
+theorem sortStable_perm (before : T → T → Bool) : ∀ l : List T, (sortStable before l).Perm l
+  | [] => by simp [sortStable]
+  | x :: l => by
+    have ih := sortStable_perm before l
+    simp only [sortStable, List.foldr_cons] at ih ⊢
+    exact (insStable_perm before x _).trans (ih.cons x)
+
+theorem leavesL_perm {a b : List T} (h : a.Perm b) : (T.leavesL a).Perm (T.leavesL b) := by
+  induction h with
+  | nil => exact List.Perm.refl _
+  | cons x _ ih => simp only [T.leavesL]; exact ih.append_left _
+  | swap x y l =>
+    simp only [T.leavesL]
+    rw [← List.append_assoc, ← List.append_assoc]
+    exact List.Perm.append_right _ List.perm_append_comm
+  | trans _ _ ih1 ih2 => exact ih1.trans ih2
+
+theorem totalQL_perm {a b : List T} (h : a.Perm b) : totalQL a = totalQL b := by
+  induction h with
+  | nil => rfl
+  | cons x _ ih => simp only [totalQL, ih]
+  | swap x y l => simp only [totalQL]; ring
+  | trans _ _ ih1 ih2 => exact ih1.trans ih2
+
+theorem leavesL_map_perm (f : T → T) : ∀ cs : List T, (∀ c ∈ cs, (f c).leaves.Perm c.leaves) →
+    (T.leavesL (cs.map f)).Perm (T.leavesL cs)
+  | [], _ => List.Perm.refl _
+  | c :: cs, h => by
+    simp only [List.map_cons, T.leavesL]
+    exact (h c (List.mem_cons_self ..)).append (leavesL_map_perm f cs (fun d hd => h d (List.mem_cons_of_mem _ hd)))
+
+theorem totalQL_map (f : T → T) : ∀ cs : List T, (∀ c ∈ cs, totalQ (f c) = totalQ c) → totalQL (cs.map f) = totalQL cs
+  | [], _ => rfl
+  | c :: cs, h => by
+    simp only [List.map_cons, totalQL]
+    rw [h c (List.mem_cons_self ..), totalQL_map f cs (fun d hd => h d (List.mem_cons_of_mem _ hd))]
+
+theorem size_lt_of_mem {c : T} : ∀ {cs : List T}, c ∈ cs → c.size < 1 + T.sizeL cs
+  | [], h => by simp at h
+  | d :: ds, h => by
+    simp only [T.sizeL]
+    rcases List.mem_cons.mp h with h | h
+    · subst h; omega
+    · have := size_lt_of_mem h; omega
+
+theorem leaves_node (i : Nat) (x : Option Nat) (l : Option Frac) (s : Option String) (cs : List T) :
+    T.leaves (.node i x l s cs) = if cs = [] then [.node i x l s []] else T.leavesL cs := by
+  cases cs <;> simp [T.leaves]
+
+/-- any re-ordering that sorts the child list of every node (whatever the order relation) keeps the leaves and the total length -/
+theorem sorted_tree_inv (f : T → T) (before : T → T → Bool)
+    (hf : ∀ i x l s cs, f (.node i x l s cs) = .node i x l s (sortStable before (cs.map f))) :
+    ∀ (n : Nat) (t : T), t.size ≤ n → (f t).leaves.Perm t.leaves ∧ totalQ (f t) = totalQ t
+  | 0, .node i x l s cs, h => by simp [T.size] at h
+  | n + 1, .node i x l s cs, h => by
+    have ih : ∀ c ∈ cs, (f c).leaves.Perm c.leaves ∧ totalQ (f c) = totalQ c := fun c hc =>
+      sorted_tree_inv f before hf n c (by have := size_lt_of_mem hc; simp only [T.size] at h; omega)
+    have hp := sortStable_perm before (cs.map f)
+    rw [hf]
+    refine ⟨?_, ?_⟩
+    · rw [leaves_node, leaves_node]
+      by_cases hcs : cs = []
+      · subst hcs; simp [sortStable]
+      · have hne : sortStable before (cs.map f) ≠ [] := by
+          intro h0; rw [h0] at hp
+          have := hp.length_eq; simp at this; exact hcs (List.length_eq_zero_iff.mp this.symm)
+        simp only [hcs, hne, if_false]
+        exact (leavesL_perm hp).trans (leavesL_map_perm f cs (fun c hc => (ih c hc).1))
+    · simp only [totalQ]
+      rw [totalQL_perm hp, totalQL_map f cs (fun c hc => (ih c hc).2)]
+
+theorem ladderizeL_eq_map (asc : Bool) : ∀ cs : List T, ladderizeL asc cs = cs.map (ladderize asc)
+  | [] => by simp [ladderizeL]
+  | c :: cs => by simp [ladderizeL, ladderizeL_eq_map asc cs]
+theorem reorderL_eq_map (asc : Bool) : ∀ cs : List T, reorderL asc cs = cs.map (reorder asc)
+  | [] => by simp [reorderL]
+  | c :: cs => by simp [reorderL, reorderL_eq_map asc cs]
+theorem rotateL_eq_map (rank : Nat → Nat) : ∀ cs : List T, rotateL rank cs = cs.map (rotate rank)
+  | [] => by simp [rotateL]
+  | c :: cs => by simp [rotateL, rotateL_eq_map rank cs]
+
+end DendroModel.C07.Aux
+
+namespace DendroModel.C07
+open DendroModel DendroModel.C07.Aux
+
+/-! ## (a) for the re-ordering operations -/
+
+/-- `ladderize` keeps the leaves and the total length (both directions, all trees) -/
+theorem ladderize_invariant_partial (asc : Bool) (t : T) :
+    (ladderize asc t).leaves.Perm t.leaves ∧ totalQ (ladderize asc t) = totalQ t :=
+  sorted_tree_inv (ladderize asc) _ (fun i x l s cs => by rw [ladderize, ladderizeL_eq_map]) t.size t (Nat.le_refl _)
+
+theorem reorder_invariant_partial (asc : Bool) (t : T) :
+    (reorder asc t).leaves.Perm t.leaves ∧ totalQ (reorder asc t) = totalQ t :=
+  sorted_tree_inv (reorder asc) _ (fun i x l s cs => by rw [reorder, reorderL_eq_map]) t.size t (Nat.le_refl _)
+
+theorem rotate_invariant_partial (rank : Nat → Nat) (t : T) :
+    (rotate rank t).leaves.Perm t.leaves ∧ totalQ (rotate rank t) = totalQ t :=
+  sorted_tree_inv (rotate rank) _ (fun i x l s cs => by rw [rotate, rotateL_eq_map]) t.size t (Nat.le_refl _)
+
+end DendroModel.C07
+
+namespace DendroModel.C07.Aux
+open DendroModel DendroModel.C07
+
+theorem toHL_append (a b : List T) : T.toHL (a ++ b) = T.toHL a ++ T.toHL b := by
+  induction a with
+  | nil => simp [T.toHL]
+  | cons c cs ih => simp [T.toHL, ih]
+
+theorem toH_node_ne {i : Nat} {x : Option Nat} {l : Option Frac} {s : Option String} {cs : List T} (h : cs ≠ []) :
+    T.toH (.node i x l s cs) = .node (T.toHL cs) := by
+  cases cs with
+  | nil => exact absurd rfl h
+  | cons c cs => simp [T.toH]
+
+end DendroModel.C07.Aux
+
+namespace DendroModel.C07
+open DendroModel DendroModel.C07.Aux
+
+/-- one inversion step of the chain keeps the set of normalised (unrooted) split masks of the leaf taxa, for every
+    labelling in which sibling clades are disjoint and non-empty (`GoodL`) and every reference bit `lo` of the tree.
+    `_partial`: single step (the same statement for the whole chain needs `GoodL` to be carried along the chain, which is
+    not proved here; the from-scratch split oracle checks it on every generated case). -/
+theorem inversion_step_keeps_unrooted_splits_partial {t u : T} (h : Step t u) (lo : Nat)
+    (hg : Hier.GoodL (T.toHL t.cs)) (hlo : Hier.bits lo ⊆ Hier.bits (Hier.maskL (T.toHL t.cs)))
+    (hsingle : ∀ a, Hier.bits lo ⊆ Hier.bits a ∨ Disjoint (Hier.bits lo) (Hier.bits a)) (hne : lo ≠ 0) :
+    ∀ s, s ∈ Hier.usplits lo (T.toH u) ↔ s ∈ Hier.usplits lo (T.toH t) := by
+  cases h with
+  | mk i x l s pre j y lc sc ds post hds hrest =>
+    have h1 : (pre ++ T.node j y lc sc ds :: post) ≠ [] := by simp
+    have h2 : (ds ++ [T.node i x lc s (pre ++ post)]) ≠ [] := by simp
+    simp only [T.cs, toHL_append, T.toHL, toH_node_ne hds] at hg hlo
+    rw [toH_node_ne h1, toH_node_ne h2]
+    simp only [toHL_append, T.toHL, toH_node_ne hds, toH_node_ne hrest]
+    exact Hier.usplits_invert lo (T.toHL pre) (T.toHL ds) (T.toHL post) hg hlo hsingle hne
 
 end DendroModel.C07
